@@ -225,6 +225,56 @@ def reflection_point(ctx, ck):
         ck.ob(rule, '%s|%s' % (FAR, kind), ok_, f.loc(st), why)
 
 
+def check_media_chain(ctx, ck, rule='R-PAIR.media-chain'):
+    """Linking the media: `x.set_next(None)` marks x as the outermost medium and REPLACES its boundary coordinate by
+    "infinity" (Medium.set_next stores self.coord).  It may therefore only be called for a medium that has no
+    successor: under `len(self.media) == 1`, for `self.media[-1]`, or in the loop under a test for the last index.
+    A call for every medium "until the next one replaces the link" loses the coordinates of all inner media."""
+    from ..rules import self_closure
+    m = ctx.model
+    f = m.func('mininec.Mininec.check_ground')
+    n = 0
+    # (what makes the call destructive: set_next(None) stores the coordinate)
+    sn = m.resolve_method('Medium', 'set_next')
+    if sn is None:
+        raise AnalysisError('anchor vanished: Medium.set_next')
+    destructive = any(isinstance(x, ast.Attribute) and isinstance(x.ctx, ast.Store) and x.attr == 'coord'
+                      for x in ast.walk(sn.node))
+    for g in self_closure(ctx, f):
+        for c in [x for x in walk_no_nested(g.node) if isinstance(x, ast.Call) and isinstance(x.func, ast.Attribute)
+                  and x.func.attr == 'set_next' and len(x.args) == 1]:
+            n += 1
+            a = c.args[0]
+            if not (isinstance(a, ast.Constant) and a.value is None):
+                ck.ob(rule, '%s|%s' % (g.qual, norm(c)), True, g.loc(c), 'links a medium to its successor')
+                continue
+            tests = []
+            in_loop = False
+            p_, ch = parent(c), c
+            while p_ is not None and p_ is not g.node:
+                if isinstance(p_, ast.If) and any(ch is s_ or any(ch is y for y in ast.walk(s_)) for s_ in p_.body):
+                    tests.append(norm(p_.test))
+                if isinstance(p_, (ast.For, ast.While)):
+                    in_loop = True
+                ch, p_ = p_, parent(p_)
+            recv = norm(c.func.value)
+            if isinstance(c.func.value, ast.Name):
+                # (a local that names the last medium)
+                ds_ = [s_.value for s_ in walk_no_nested(g.node) if isinstance(s_, ast.Assign) and len(s_.targets) == 1
+                       and isinstance(s_.targets[0], ast.Name) and s_.targets[0].id == recv]
+                if len(ds_) == 1:
+                    recv = norm(ds_[0])
+            single = any(re.search(r'len\(self\.media\) == 1|len\(self\.media\) < 2|len\(self\.media\) <= 1', t_) for t_ in tests)
+            last = recv.endswith('media[-1]') or any(re.search(r'len\(self\.media\) - 1|media\[-1\]', t_) for t_ in tests)
+            ok = single or last or not destructive
+            ck.ob(rule, '%s|%s' % (g.qual, norm(c)), ok, g.loc(c),
+                  'the outermost medium is closed off (%s)' % ('only medium' if single else 'last medium') if ok else
+                  '%s is called %s without a test that %s has no successor: set_next(None) overwrites the boundary '
+                  'coordinate, every inner medium then reaches to infinity and the media behind it are never selected'
+                  % (norm(c), 'in the linking loop' if in_loop else 'here', recv))
+    return n
+
+
 def run(ctx, ck):
     prog = ctx.program
     m = ctx.model
@@ -369,5 +419,7 @@ def run(ctx, ck):
               'the loop over the media is left at the first medium without a reflection point: the entries of all later '
               'media keep their initial value')
     ck.info('media_loops_with_stores', n_ml)
+    ck.rule('R-PAIR.media-chain', 'set_next(None) (which replaces the boundary coordinate by infinity) only for a medium without successor')
+    ck.floor('set_next calls linking the media', check_media_chain(ctx, ck), 2)
     ck.undecided += ['convergence of the real-ground pattern to the ideal-ground pattern',
                      'invariance under medium splitting / far boundaries (numeric)']
